@@ -36,7 +36,10 @@ def pieces(sid, k, n, first_table=None):
     if k == "ext":   # rejected only at END of input (every token is a valid grammar prefix)
         return {1: [f"CREATE EXTENSION ext{s};"]}[n]
     if k == "unsup":
-        return {1: [f"SELECT * FROM x{s};"], 2: [f"SELECT a{s},", f"b FROM x{s};"], 3: [f"SELECT a{s}", f"FROM x{s}", f"WHERE a{s} > 1;"]}[n]
+        one = [f"SELECT * FROM x{s};", f"SELECT * FROM x{s} WHERE tz = '+02:00';", f"COMMENT ON TABLE x{s} IS 'written in C++ (v2.1)';",
+               f"UPDATE x{s} SET tz = '+02:00' WHERE a LIKE '+1%';", f"SELECT 'a-b_c.d:e/f~h!i@j$l%m^n&o*p|q?r<s>t{{u}}v[w]x' FROM y{s};", f"CALL proc{s}('x', \"y+z\", 1.5);",
+               f"ANALYZE TABLE x{s} COMPUTE STATISTICS FOR COLUMNS a, b;"][sid % 7]
+        return {1: [one], 2: [f"SELECT a{s},", f"b FROM x{s};"], 3: [f"SELECT a{s}", f"FROM x{s}", f"WHERE a{s} > 1;"]}[n]
     if k == "insert":
         return {1: [f"INSERT INTO x{s} VALUES ({s}, 2);"], 2: [f"INSERT INTO x{s}", f"VALUES ({s}, 2);"]}[n]
     if k == "upsert":
